@@ -217,6 +217,19 @@ prop('C01',
   "Not decided: value-level round trips (wildcard normalisation, max_len rewriting, signed slots for values >= 2^31, nx_match ordering), 64 KiB limits, re-encode equality of values.",
   "custom AST checker: codec byte-layout extraction by abstract interpretation, layout/spec comparison, registry comparison, bytes/str typing, definiteness, sibling-branch symmetry, constant evaluation of bit-field expressions", "DESIGN.md 5/C01")
 
+prop('C03',
+  "Static analysis of /repo's current source: decides structural necessary conditions - every match field of ofp_match_data (the 12 spec "
+  "fields, each with the specification's wildcard bit; prefix masks/shifts/ALL constants consistent) is compared by matches_with_wildcards "
+  "and by __eq__, each comparison pairing the same field on both sides; from_packet's assignments are decided by path-sensitive "
+  "reachability under each protocol environment against OF 1.0 section 3.4 (always, untagged, VLAN, IPv4, unfragmented TCP/UDP and ICMP, "
+  "first/later/middle fragments -> tp 0/0 and no real ports, ARP, non-ethertype, SNAP) and the lookup extracts with spec_frags and the "
+  "ingress port; only add_entry inserts into the table (binary insert keeping descending effective priority, or append+sort "
+  "reverse), nobody else sorts/appends/rewrites priority or match; entry_for_packet scans forward, returns the first hit and None only "
+  "after the loop; an exact match outranks 0xffff and is_wildcarded evaluates true for every single wildcard bit and partial prefix. "
+  "Decides these conditions, not the truth of matching for particular values.",
+  "Not decided: truth of matching for particular values (prefix arithmetic in inNetwork, wildcards x frames product), prerequisite semantics.",
+  "custom AST/CFG checker: exhaustiveness vs a data table, path-sensitive reachability under protocol environments vs a spec extraction table, ownership of the sorted list, ordered-insert idiom recognition, constant evaluation over all wildcard bits", "DESIGN.md 5/C03")
+
 NOT_APPLICABLE = {
   'C16': "Address types: the statement is about numeric/textual agreement over the whole address domain (byte order, mask arithmetic, CIDR parsing, zero-run compression, round trips, rejection of malformed text) - results of computations on runtime values; no shape-level rule is a necessary and telling condition for it (DESIGN.md section 7).",
 }
